@@ -2,6 +2,7 @@ package rules
 
 import (
 	"go/ast"
+	"go/token"
 	"go/types"
 
 	"verif/checker/internal/pathsim"
@@ -79,16 +80,42 @@ func init() {
 				r.Error("undecided: WriteRun's pulls are not of the form entry, ok := next()")
 				return
 			}
+			// the slice of written tables: `tables = append(tables, t)`
+			var tablesObj types.Object
+			inspect(f.Decl.Body, func(nd ast.Node) bool {
+				if as, ok := nd.(*ast.AssignStmt); ok && len(as.Lhs) == 1 && len(as.Rhs) == 1 {
+					if call, isCall := ast.Unparen(as.Rhs[0]).(*ast.CallExpr); isCall && len(call.Args) == 2 {
+						if id, isID := call.Fun.(*ast.Ident); isID && id.Name == "append" {
+							if o := prog.IdentObj(info, as.Lhs[0]); o != nil && prog.IdentObj(info, call.Args[0]) == o {
+								tablesObj = o
+							}
+						}
+					}
+				}
+				return true
+			})
 			const (
 				fresh    = 1  // cut() ran since the last flushChunk
 				pending  = 2  // an entry was pulled and not yet judged / buffered
 				atSet    = 4  // (inlined cut) cutAt = len(entries) recorded since the last flushChunk
 				szSet    = 8  // (inlined cut) chunkSize = size recorded since the last flushChunk
 				wroteAll = 16 // Write(buffer.all()) ran after the last change of the buffer
+				sinceCut = 32 // an entry was added since the last cut(): flushChunk leaves it in the buffer
 			)
+			isLenOf := func(c *pathsim.Ctx, e ast.Expr, isWhat func(ast.Expr) bool) bool {
+				call, ok := ast.Unparen(e).(*ast.CallExpr)
+				if !ok || len(call.Args) != 1 {
+					return false
+				}
+				id, isID := call.Fun.(*ast.Ident)
+				return isID && id.Name == "len" && c.Info.Uses[id] == types.Universe.Lookup("len") && isWhat(call.Args[0])
+			}
 			nEnd := 0
 			nFlush, nCut := 0, 0
-			spec := &pathsim.Spec{}
+			// at entry the buffer is empty and no table has been written
+			var init pathsim.State
+			init.V[2], init.V[3], init.V[4] = pathsim.True, pathsim.False, pathsim.True
+			spec := &pathsim.Spec{Init: init}
 			spec.Atom = func(c *pathsim.Ctx, e ast.Expr) (int, bool, bool) {
 				if id, ok := ast.Unparen(e).(*ast.Ident); ok && okVars[c.Info.Uses[id]] {
 					return 0, false, true
@@ -96,6 +123,38 @@ func init() {
 				if x, notNil, isCmp := pathsimIsNil(c.Info, e); isCmp {
 					if tv, has := c.Info.Types[x]; has && isErrorType(tv.Type) {
 						return 1, !notNil, true
+					}
+				}
+				// atom 4: buffer.size < <bound> — known true while the buffer is empty (bounds are positive)
+				if b, ok := ast.Unparen(e).(*ast.BinaryExpr); ok && prog.SelField(c.Info, b.X) == size {
+					switch b.Op {
+					case token.LSS:
+						return 4, false, true
+					case token.GEQ:
+						return 4, true, true
+					}
+				}
+				// atom 2: the buffer is empty (len(buffer.entries) == 0 / buffer.size == 0);
+				// atom 3: tables were written already (len(tables) > 0)
+				if b, ok := ast.Unparen(e).(*ast.BinaryExpr); ok {
+					if tv, has := c.Info.Types[b.Y]; has && tv.Value != nil && tv.Value.String() == "0" {
+						isBuf := isLenOf(c, b.X, func(a ast.Expr) bool { return prog.SelField(c.Info, a) == entries }) || prog.SelField(c.Info, b.X) == size
+						isTbl := tablesObj != nil && isLenOf(c, b.X, func(a ast.Expr) bool { return prog.IdentObj(c.Info, a) == tablesObj })
+						idx := -1
+						switch {
+						case isBuf:
+							idx = 2
+						case isTbl:
+							idx = 3
+						}
+						if idx > 0 {
+							switch b.Op {
+							case token.EQL:
+								return idx, idx == 3, true // len(tables)==0 is the negation of atom 3
+							case token.NEQ, token.GTR:
+								return idx, idx == 2, true
+							}
+						}
 					}
 				}
 				return 0, false, false
@@ -115,12 +174,17 @@ func init() {
 						if len(ev.Call.Args) == 1 {
 							if inner, isInner := ast.Unparen(deref(c.Info, ev.Call.Args[0])).(*ast.CallExpr); isInner && r.P.CalleeFunc(c.Info, inner) == all {
 								s.A |= wroteAll
+								if s.V[2] != pathsim.False && s.V[3] != pathsim.False {
+									c.Violate(ev.Pos, "[empty-table] at the end of the input Write(buffer.all()) is reachable with an empty buffer after tables were already written (the previous chunk ended exactly on the last entry: nothing was added between cut() and flushChunk): an empty trailing table is produced, whose prefix scan fails with unexpected EOF")
+								}
 							}
 						}
 						s.V[1] = pathsim.Unknown
 						return []pathsim.State{s}
 					case ev.Callee == types.Object(add):
 						s.A &^= wroteAll
+						s.A |= sinceCut
+						s.V[2], s.V[4] = pathsim.False, pathsim.Unknown
 						if len(ev.Call.Args) == 1 && entryVars[prog.IdentObj(c.Info, ev.Call.Args[0])] {
 							if s.V[0] == pathsim.False {
 								c.Violate(ev.Pos, "[add-after-end] an entry is added after the input reported its end (the zero entry)")
@@ -130,6 +194,7 @@ func init() {
 						return []pathsim.State{s}
 					case cut != nil && ev.Callee == cut:
 						nCut++
+						s.A &^= sinceCut
 						s.A |= fresh
 						return []pathsim.State{s}
 					case ev.Callee == types.Object(flush):
@@ -138,9 +203,23 @@ func init() {
 							c.Violate(ev.Pos, "[stale-cut] flushChunk is reachable without a cut() since the previous flushChunk: it reuses the previous table's cut point and chunk size (a cut point beyond the buffer panics, one inside it splits at the wrong entry and the buffer's size accounting drifts)")
 						}
 						s.A &^= fresh | atSet | szSet
+						// what stays behind: the entries added after the cut
+						if s.A&sinceCut != 0 {
+							s.V[2], s.V[4] = pathsim.False, pathsim.Unknown
+						} else {
+							s.V[2], s.V[4] = pathsim.True, pathsim.True
+						}
 						return []pathsim.State{s}
 					}
 				case pathsim.EvAssign:
+					// tables = append(tables, t): tables is non-empty from here on
+					if len(ev.Lhs) == 1 && len(ev.Rhs) == 1 && tablesObj != nil && prog.IdentObj(c.Info, ev.Lhs[0]) == tablesObj {
+						if call, isCall := ast.Unparen(ev.Rhs[0]).(*ast.CallExpr); isCall {
+							if id, isID := call.Fun.(*ast.Ident); isID && id.Name == "append" {
+								s.V[3] = pathsim.True
+							}
+						}
+					}
 					for i, l := range ev.Lhs {
 						if len(ev.Rhs) != len(ev.Lhs) {
 							break
@@ -163,6 +242,7 @@ func init() {
 						}
 						if s.A&atSet != 0 && s.A&szSet != 0 {
 							s.A |= fresh
+							s.A &^= sinceCut
 							nCut++
 						}
 					}
@@ -194,7 +274,7 @@ func init() {
 					}
 					if s.V[0] == pathsim.False {
 						nEnd++
-						if s.A&wroteAll == 0 {
+						if s.A&wroteAll == 0 && s.V[2] != pathsim.True {
 							c.Violate(ev.Pos, "[end-of-input] at the end of the input WriteRun returns successfully without having written everything that is buffered (Write(buffer.all())): the tail of the run is lost")
 						}
 					} else {
